@@ -871,9 +871,11 @@ package parse
 // caller asks for it (expect is always given a constant type).
 //@ globalinv[one-spelling-per-type;C13] forallof(a, string, forallof(b, string, haskey(builtinIdents, a) && haskey(builtinIdents, b) && !same(a, b) && builtinIdents[a] == builtinIdents[b] ==> builtinIdents[a] == itemBool))
 //@ globalinv[one-symbol-per-type;C13] forallof(a, string, forallof(b, string, haskey(arithmeticItemsBySymbol, a) && haskey(arithmeticItemsBySymbol, b) && !same(a, b) ==> arithmeticItemsBySymbol[a] != arithmeticItemsBySymbol[b]))
+// C05: naming a token type (in the message of a failing expect, which calls it
+// directly - a panic here would escape SoyFile, since the parser's handler
+// re-raises runtime errors) cannot panic for any type value.
 //@ func (itemType).String
-//@   props C13
-//@   nosafety
+//@   props C13 C05
 //@   requires t != itemBool
 //@   note the precondition t != itemBool is not checked at the call sites for C13: (*tree).expect passes its `expected` argument, which is a constant other than itemBool at all 54 calls of expect (inspection), and fmt verbs format items, not item types
 //@   pure
